@@ -10,11 +10,12 @@ ID = 'C14'
 TITLE = 'DAT mud-log files parse to their declared channels and values'
 NATIVE = None
 NEEDS = ()
-RULE = ('Texts from the line model tdv.gen.dat: 4..30 declarations (UTIM, DATE, TIME and random [A-Z0-9] names, multi-word descriptions, one-word '
-        'units incl. sec/ddmmyy/hhmmss on ordinary names) in random order, separated by single blanks, tabs or runs of both; header UTIM DATE TIME '
-        '+ a non-empty subset of the other channels in any order; 0..50 rows; UTIM in 1970..2038, both date spellings (09Dec06, 09-Dec-06, padded '
+RULE = ('Texts from the line model tdv.gen.dat: 4..30 (every seventh text 60..160) declarations (UTIM, DATE, TIME and random [A-Z0-9] names of 1..8 '
+        'characters, digits anywhere, names extending the time names; multi-word descriptions, one-word units incl. sec/ddmmyy/hhmmss and their '
+        'upper-case spellings on ordinary names) in random order, separated by single blanks, tabs or runs of both, trailing blanks/tabs, LF or CRLF; '
+        'header UTIM DATE TIME + a non-empty subset of the other channels in any order; 0..50 rows (one text per shard 1500..2600); UTIM in 1970..2038, both date spellings (09Dec06, 09-Dec-06, padded '
         'or not), hh-mm-ss times, numbers as integers, decimals, exponent forms, signed, ".5", "5.".  Every text is parsed, then every kind of '
-        'single-line corruption (31 kinds: column dropped/added, blank or duplicated or deleted row, undeclared / duplicate / dropped / extra / '
+        'single-line corruption (37 kinds: header deleted / lower-cased, column dropped/added, blank or duplicated or deleted row, undeclared / duplicate / dropped / extra / '
         'swapped header name, duplicated header, garbage / blank / removed / re-united declaration, non-numeric token, malformed / out of range / '
         'huge date, time, UTIM) is applied to it and parsed.  One case = one text (distinct by its characters); non-trivial = >= 1 data row and a '
         'header naming a proper subset of the declared channels in an order different from the declarations.')
@@ -35,7 +36,8 @@ MECHANISMS = [
     ('TotalDepth.DAT.DAT_parser', '_unit_hhmmyy_to_datetime_time'), ('TotalDepth.DAT.DAT_parser', '_ret_conversion_function'),
     ('TotalDepth.DAT.DAT_parser', '_numpy_dtype'), ('TotalDepth.common.LogPass', 'FrameArray.append'),
 ]
-REQUIRED_MONITORS = ['parse_well_formed', 'corruption_rejected', 'corruption_parsed_to_model', 'can_parse_file', 'import_as_user', 'example_file']
+REQUIRED_MONITORS = ['parse_well_formed', 'corruption_rejected', 'corruption_parsed_to_model', 'can_parse_file', 'import_as_user', 'example_file',
+                     'same_file_object', 'earlier_result_unchanged']
 TEXTS_PER_SHARD = {'quick': 70, 'thorough': 3000}
 MIN_NONTRIVIAL = {'quick': 5000, 'thorough': 200000}
 TIMEOUT_S = {'quick': 300, 'thorough': 3000}
@@ -247,8 +249,18 @@ def run_shard(ctx, prm):
         rec.mon('example_file', 0)
 
     # ---- generated texts and their corruptions
+    prev = None          # (frame array, expected columns, witness) of the previous well-formed parse
+    nlong = 1 if ctx.tier == 'quick' else 6
     for n in range(prm['texts']):
-        text, model = G.generate(rng)
+        long_file = n < nlong
+        if long_file:
+            # a long log: thousands of data rows, few channels (kept cheap); only a handful of corruptions are applied to it
+            text, model = G.generate(rng, wide=True, n_decl=(4, 9), n_rows=(1500, 2600))
+        elif n % 7 == 3:
+            # many declarations (the example file of the repository declares 59 channels, real files more)
+            text, model = G.generate(rng, wide=True, n_decl=(60, 160), n_rows=(0, 12))
+        else:
+            text, model = G.generate(rng, wide=True)
         cols = model.columns()
         nrows = len(model.rows)
         nt = model.nontrivial()
@@ -257,6 +269,14 @@ def run_shard(ctx, prm):
             classes.append('time-units-on-ordinary-channel')
         if '\t' in text:
             classes.append('tabs')
+        if '\r\n' in text:
+            classes.append('crlf')
+        if long_file:
+            classes.append('rows>=1500')
+        if len(model.declared) >= 60:
+            classes.append('declarations>=60')
+        if any(not (2 <= len(c.name) <= 5) or c.name[0].isdigit() for c in cols):
+            classes.append('name-length-1-or-6+-or-digit-first')
         if any('-' in r[1] for r in model.rows):
             classes.append('date-dd-Mon-yy')
         if any('-' not in r[1] for r in model.rows):
@@ -279,6 +299,7 @@ def run_shard(ctx, prm):
         if path:
             os.unlink(path)
         rec.mon('parse_well_formed')
+        clean = False
         if how != 'ok':
             st.violation('parse_well_formed', 'parse-raised', 'parse_file raised %s: %s on a well-formed text' % (type(fa).__name__, fa),
                          dict(wit, exc_type=type(fa).__name__), exc=fa)
@@ -286,9 +307,34 @@ def run_shard(ctx, prm):
             d = compare(np, fa, cols)
             if d:
                 st.violation('parse_well_formed', d[0], d[1], dict(wit, **d[2]))
+            clean = d is None
         check_can_parse(text, nrows >= 1, wit, 'well-formed text with %d rows' % nrows)
+        # ---- history: discovery then parse on one and the same file object (can_parse_file leaves it positioned after the first row)
+        rec.mon('same_file_object')
+        fobj = io.StringIO(text)
+        try:
+            can = D.can_parse_file(fobj)
+            fa2 = D.parse_file(fobj)
+        except Exception as e:  # noqa
+            st.violation('same_file_object', 'raised', 'can_parse_file then parse_file on one file object raised %s: %s' % (type(e).__name__, e),
+                         dict(wit, exc_type=type(e).__name__), exc=e)
+        else:
+            d = compare(np, fa2, cols)
+            if can is not (nrows >= 1):
+                st.violation('same_file_object', 'can-parse', 'can_parse_file returned %r for a well-formed text with %d rows' % (can, nrows), dict(wit, got=repr(can)))
+            elif d:
+                st.violation('same_file_object', d[0], 'parse_file after can_parse_file on the same file object: ' + d[1], dict(wit, **d[2]))
+        # ---- history: the result of the previous parse still holds what its file said (nothing shared with later parses)
+        if prev is not None:
+            rec.mon('earlier_result_unchanged')
+            d = compare(np, prev[0], prev[1])
+            if d:
+                st.violation('earlier_result_unchanged', d[0], 'the frame array parsed from the previous file changed after parsing this one: ' + d[1],
+                             dict(prev[2], later_text=text[:1500], **d[2]))
+        prev = (fa, cols, wit) if clean else None      # only a result that was right when it was made can be said to have changed
 
-        for kind in G.CORRUPTIONS:
+        kinds = G.CORRUPTIONS if not long_file else rng.sample(G.CORRUPTIONS, 6)
+        for kind in kinds:
             c = G.corrupt(rng, model, kind)
             if c is None:
                 rec.add('corruption_not_applicable')
